@@ -19,6 +19,7 @@ EXPLANATION = (
     "in any generator of the package. Decides the iteration protocol for every response "
     "sequence; does not decide what the peer sends or timing."
     " Fourth session: (checkpoint) the reactor is not resumed from the finalisation of a generator; (response-seen) borrowed from C03's ready-probe."
+    ' Fifth round: everything done with a lazily decoded data set (decode and first use) lies inside the guarded try (decoded-use-guarded); (response-direction) borrowed from C20.'
 )
 
 GENS = ("_wrap_find_responses", "_wrap_get_move_responses")
